@@ -85,11 +85,17 @@ def c06(tier):
     cov, viols, inc = _with_sets("C06", tier, small_space=False)
     c2, v2, i2 = sets.run_engine("C06", tier, sets.REALLOC_DIRECT, 4, 4, crash_owners=("C06",), any_prop=True)
     cov, viols, inc = sets.merge_cov(cov, c2), viols + v2, inc + i2
+    # the allocator protocol when the allocator itself fails: the fault sweep of C09 (every allocator call of every scenario made to throw in turn)
+    # judged by the allocator ledger (a block handed back twice / never after a failed growth shows up here, not on any fault-free path)
+    fcfgs = [c for c in vec.FAULT_QUICK + (vec.FAULT_THOROUGH if tier == "thorough" else []) if c.flav != "f"]
+    c3, v3, i3 = sets.run_engine("C06", tier, fcfgs, 28, 28, extra_args=["--wide"] if tier == "thorough" else [], crash_owners=("C06", "C09"))
+    cov, viols, inc = sets.merge_cov(cov, c3), viols + v3, inc + i3
     cov["rule"] = VEC_RULE + ("Judge: allocator ledger (pointer -> byte count, allocator family) checked on every allocate/deallocate/reallocate, zero outstanding "
                               "blocks when all containers of a history are destroyed; reallocate only for relocatable element types with true old capacity "
                               "and live count; LeakSanitizer for the stock allocators. Plus a direct driver of BasicAllocatorWrapper::reallocate over the complete "
                               "grid old capacity 1..9 x new capacity 1..12 x live count, for TC/TR/non-TR elements, instrumented basic allocator (always moves, "
-                              "poisons the old block) and amc::allocator (realloc): the live prefix must be preserved by value and identity.")
+                              "poisons the old block) and amc::allocator (realloc): the live prefix must be preserved by value and identity. Plus the allocator-fault "
+                              "sweep of the vector fault engine (every allocator call of every scenario throws in turn) under the same ledger.")
     return core.finish("C06", tier, "exploration", cov, viols, inc, t0, ASSUME_SAN, min_evals=1000)
 
 
